@@ -49,6 +49,8 @@ def loaded_model (rng, cli_sources = False, nobj_min = 2):
     for i, g in enumerate (spec ['geo']):
         g ['tag'] = i + 1
         g ['taper'] = None
+    if spec ['media'] is not None and rng.random () < 0.5:
+        gen.rand_media (rng, spec)      # the far field over real ground depends on the frequency through the ground impedance
     if cli_sources:
         spec ['src'] = [dict (p = [1 + int (rng.integers (0, 2))], v = gen.rand_voltage (rng))]
     else:
@@ -241,6 +243,8 @@ def check_sweep (c):
     if rng.random () < 0.4:
         lam = gen.C_MHZ / spec ['f']
         extra += ['--near-field=%r,%r,%r,1,1,1,1,1,2' % (2 * lam, 2 * lam, 2 * lam), '--option', 'near-field', '--option', 'far-field']
+        if rng.random () < 0.5:
+            extra += ['--option', 'far-field-absolute', '--ff-distance', '500']
     rs = common.run_main (argv + extra + ['--frequency-steps', str (n), '--frequency-increment=%r' % inc])
     if rs ['kind'] == 'exception':
         raise common.Repo_Crash (rs ['exc'], 'main(sweep)')
@@ -273,6 +277,11 @@ def check_procs (c):
     rng  = np.random.default_rng ([c ['seed'], 143, c ['i']])
     spec = loaded_model (rng, cli_sources = True, nobj_min = 3)
     argv = gen.to_argv (spec) + ['--theta=0,30,3', '--phi=0,90,2']
+    # several tables in one report: their order must not depend on the process either
+    lam  = gen.C_MHZ / spec ['f']
+    pool = [['--option', 'far-field'], ['--option', 'far-field-absolute', '--ff-distance', '1000'], ['--option', 'near-field', '--near-field=%r,%r,%r,1,1,1,1,1,2' % (2 * lam, 2 * lam, 2 * lam)]]
+    for j in rng.permutation (3) [: int (rng.integers (0, 4))]:
+        argv += pool [j]
     tmp  = tempfile.mkdtemp (prefix = 'pmv-c14-')
     outs = []
     viol, mon = [], {}
